@@ -405,7 +405,9 @@ theorem C16_host_reencodes_regname (e : Env) (u : Url) (raw h : Str) : rawHost e
   | false =>
     obtain ⟨henc, hwhy⟩ := hN ha
     have hreg : regPath e.o h false = .ok raw := by
-      simp only [regPath, ha, Bool.false_eq_true, ↓reduceIte, henc, bind, Except.bind, Bool.false_and]
+      -- `raw` holds no ':' (hypothesis), so the IDNA answer is returned as such (no re-entry, fix 3fbf5b4)
+      have h58m : mem 58 raw = false := by rw [ParseLemmas.mem_eq]; simpa using h58
+      simp only [regPath, ha, Bool.false_eq_true, ↓reduceIte, henc, bind, Except.bind, Bool.false_and, h58m]
       rfl
     rw [encodeHost_eq]
     rcases hwhy with hl | ⟨hl, hp⟩
